@@ -94,16 +94,8 @@ theorem C08_mutable_fields :
       ["transport!", "transport", "endianness", "wordOrder", "unitId"] := by
   decide +kernel
 
-/-- the entry points: the 35 exported methods; the client spawns no goroutines -/
-theorem C08_entries :
-    entries clientProg clientPublic =
-      ["ModbusClient.Close", "ModbusClient.Open", "ModbusClient.ReadBytes", "ModbusClient.ReadCoil", "ModbusClient.ReadCoils", "ModbusClient.ReadDiscreteInput",
-       "ModbusClient.ReadDiscreteInputs", "ModbusClient.ReadFloat32", "ModbusClient.ReadFloat32s", "ModbusClient.ReadFloat64", "ModbusClient.ReadFloat64s",
-       "ModbusClient.ReadRawBytes", "ModbusClient.ReadRegister", "ModbusClient.ReadRegisters", "ModbusClient.ReadUint32", "ModbusClient.ReadUint32s", "ModbusClient.ReadUint64",
-       "ModbusClient.ReadUint64s", "ModbusClient.SetEncoding", "ModbusClient.SetUnitId", "ModbusClient.WriteBytes", "ModbusClient.WriteCoil", "ModbusClient.WriteCoils",
-       "ModbusClient.WriteFloat32", "ModbusClient.WriteFloat32s", "ModbusClient.WriteFloat64", "ModbusClient.WriteFloat64s", "ModbusClient.WriteRawBytes",
-       "ModbusClient.WriteRegister", "ModbusClient.WriteRegisters", "ModbusClient.WriteUint32", "ModbusClient.WriteUint32s", "ModbusClient.WriteUint64",
-       "ModbusClient.WriteUint64s"] := by
+/-- the entry points are exactly the exported methods: the client spawns no goroutine -/
+theorem C08_entries : entries clientProg clientPublic = clientPublic := by
   decide +kernel
 
 /-- C3 — the translator's `held` flag equals the simulated holding state at every action of every
@@ -120,7 +112,8 @@ theorem C08_no_race_client (calls : List (List String))
     -- no two goroutines are ever about to perform conflicting accesses to a mutable field
     ¬ RaceAt clientMutable (run (initState clientProg fuel calls) sched) ∧
     -- at most one goroutine is inside a critical section
-    (∀ (i j : Nat) (ti tj : Thread), (run (initState clientProg fuel calls) sched).threads[i]? = some ti →
+    (∀ (i j : Nat) (ti tj : Thread),
+        (run (initState clientProg fuel calls) sched).threads[i]? = some ti →
         (run (initState clientProg fuel calls) sched).threads[j]? = some tj →
         ti.holding = true → tj.holding = true → i = j) ∧
     -- while goroutine i is inside a critical section nobody else locks, unlocks or touches a
@@ -131,7 +124,7 @@ theorem C08_no_race_client (calls : List (List String))
         ∀ p ∈ mid, p.1 ≠ i → p.2 ≠ .acq ∧ p.2 ≠ .rel ∧ ¬ p.2.touchesMut clientMutable) := by
   have hc' : ∀ ms ∈ calls, ∀ m ∈ ms, m ∈ entries clientProg clientPublic := by
     intro ms hms m hm
-    simp only [entries, List.mem_eraseDups, List.mem_append]
+    simp only [entries, List.mem_append]
     exact Or.inl (hc ms hms m hm)
   refine ⟨discipline_no_race C08_discipline calls hc' sched, ?_, ?_⟩
   · intro i j ti tj hi hj hhi hhj
@@ -157,23 +150,29 @@ theorem C08_exchanges_exclusive (calls : List (List String))
 
 /-! ### non-vacuity and sensitivity -/
 
+example : "ModbusClient.ReadUint32" ∈ clientPublic ∧ "ModbusClient.Open" ∈ clientPublic ∧
+    "ModbusClient.executeRequest" ∉ clientPublic ∧ "ModbusClient.encoding" ∉ clientPublic ∧
+    clientPublic.length = 34 := by
+  decide +kernel
+
 /-- replace the body of method `m` -/
 def withBody (prog : Program) (m : String) (body : List Act) : Program :=
   prog.map (fun p => if p.1 = m then (m, body) else p)
 
-/-- (a) the bug that was fixed (F4): `ReadRegisters` reading `mc.endianness` after the locked
-    helper returned, i.e. outside the mutex — rejected -/
-example :
-    disciplineOk
-      (withBody clientProg "ModbusClient.ReadRegisters" [⟨.call, "ModbusClient.readRegisters"⟩, ⟨.rd, "endianness"⟩])
-      clientPublic clientCtors fuel = false := by
+/-- (a) the bug that was fixed (F4): `ReadRegisters` as it was — the locked helper returns, then
+    `mc.endianness` is read outside the mutex while `SetEncoding` writes it under the mutex -/
+def oldReadRegisters : Program :=
+  withBody clientProg "ModbusClient.ReadRegisters"
+    [⟨.call, "ModbusClient.readRegisters"⟩, ⟨.rd, "endianness"⟩]
+
+example : disciplineOk oldReadRegisters clientPublic clientCtors fuel = false := by
   decide +kernel
 
-/-- … and the checker names the offender: exactly `ReadRegisters` and its caller `ReadRegister` fail -/
+/-- … and the checker names the offenders: exactly `ReadRegisters` and its caller `ReadRegister` -/
 example :
-    let prog := withBody clientProg "ModbusClient.ReadRegisters" [⟨.call, "ModbusClient.readRegisters"⟩, ⟨.rd, "endianness"⟩]
-    (entries prog clientPublic).filter
-      (fun m => !entryOk (mutableFields prog clientCtors) (entrySteps prog fuel m)) =
+    (entries oldReadRegisters clientPublic).filter
+      (fun m => !entryOk (mutableFields oldReadRegisters clientCtors)
+        (entrySteps oldReadRegisters fuel m)) =
       ["ModbusClient.ReadRegister", "ModbusClient.ReadRegisters"] := by
   decide +kernel
 
@@ -182,7 +181,8 @@ example :
 example :
     disciplineOk
       (withBody clientProg "ModbusClient.SetUnitId"
-        [⟨.acq, "lock"⟩, ⟨.call, "ModbusClient.encoding"⟩, ⟨.wr, "unitId"⟩, ⟨.rel, "lock(deferred)"⟩])
+        [⟨.acq, "lock"⟩, ⟨.call, "ModbusClient.encoding"⟩, ⟨.wr, "unitId"⟩,
+         ⟨.rel, "lock(deferred)"⟩])
       clientPublic clientCtors fuel = false := by
   decide +kernel
 
@@ -191,10 +191,22 @@ example : entryOk clientMutable [.acq, .acq, .wr "unitId", .rel] = false := by d
 /-- a forgotten unlock, an unknown callee, and too little fuel are rejected too -/
 example : entryOk clientMutable [.acq, .wr "unitId"] = false := by decide +kernel
 example :
-    disciplineOk (withBody clientProg "ModbusClient.SetUnitId" [⟨.call, "ModbusClient.noSuchMethod"⟩])
+    disciplineOk
+      (withBody clientProg "ModbusClient.SetUnitId" [⟨.call, "ModbusClient.noSuchMethod"⟩])
       clientPublic clientCtors fuel = false := by
   decide +kernel
 example : disciplineOk clientProg clientPublic clientCtors 2 = false := by decide +kernel
+
+/-- the `held` cross-check is sensitive: a flag that claims "not held" inside the critical section,
+    and a callee that returns with the mutex still held, are both rejected -/
+example :
+    heldAgrees clientProg fuel false
+      [(⟨.acq, "lock"⟩, true), (⟨.rd, "unitId"⟩, false), (⟨.rel, "lock"⟩, false)] = false := by
+  decide +kernel
+example :
+    heldAgrees (withBody clientProg "ModbusClient.encoding" [⟨.acq, "lock"⟩]) fuel false
+      [(⟨.call, "ModbusClient.encoding"⟩, false)] = false := by
+  decide +kernel
 
 /-- what an entry looks like after inlining -/
 example :
@@ -207,7 +219,8 @@ example :
 /-- the hypotheses of T1 are satisfiable, and `run` computes: two goroutines, one in `SetEncoding`,
     one in `ReadUint32`; thread 1 gets the mutex first, thread 0's `acq` is disabled until thread 1
     released it. -/
-def exState : State := initState clientProg fuel [["ModbusClient.SetEncoding"], ["ModbusClient.ReadUint32"]]
+def exState : State :=
+  initState clientProg fuel [["ModbusClient.SetEncoding"], ["ModbusClient.ReadUint32"]]
 
 example : exState.holder = none ∧
     ∀ t ∈ exState.threads, t.holding = false ∧ wellLocked clientMutable false t.todo = true := by
